@@ -51,6 +51,9 @@ func (p *mapProxy) RoundTrip(req *http.Request) (*http.Response, error) {
 	}
 	p.mu.Lock()
 	defer p.mu.Unlock()
+	if os.Getenv("C14_TRACE") != "" {
+		fmt.Printf("PROXY %s %s %q\n", req.Method, req.URL.Path, body)
+	}
 	status := 200
 	admin := req.Method == http.MethodPut || req.Method == http.MethodDelete
 	if admin {
@@ -102,12 +105,20 @@ func (p *mapProxy) state() ([]string, bool, string) {
 func unmanageIdle() bool {
 	buf := make([]byte, 1<<20)
 	n := runtime.Stack(buf, true)
-	return !strings.Contains(string(buf[:n]), "ScheduleUnmanageHAProxyEndpoints") && !strings.Contains(string(buf[:n]), "unmanageHAProxyEndpoints")
+	dump := string(buf[:n])
+	for _, f := range []string{"ScheduleUnmanageHAProxyEndpoints", "unmanageHAProxyEndpoints", "scheduleUnmanageHAProxyGlobal", "unmanageGlobal"} {
+		if strings.Contains(dump, f) {
+			return false
+		}
+	}
+	return true
 }
 
 type reloadStep struct {
 	Specs  []spec `json:"flows"`
 	FailAt int    `json:"admin_call_answered_503,omitempty"`
+	// Soon: the next reload follows within the 30 s after which this reload's deferred un-registration runs
+	Soon bool `json:"next_reload_within_30s,omitempty"`
 }
 
 func TestProxyMapOverReloads(t *testing.T) {
@@ -139,6 +150,7 @@ func TestProxyMapOverReloads(t *testing.T) {
 			if rapid.IntRange(0, 3).Draw(t, "fault") == 0 {
 				st.FailAt = rapid.IntRange(1, 8).Draw(t, "fail-at")
 			}
+			st.Soon = rapid.IntRange(0, 2).Draw(t, "soon") == 0
 			return st
 		}), 2, 4).Draw(t, "reloads")
 		clk := vclock.New(time.Unix(1_700_000_000, 0))
@@ -225,6 +237,11 @@ func TestProxyMapOverReloads(t *testing.T) {
 				r.NonTrivial(ev.JSON([]any{"reloads", steps, si}), func() any { return map[string]any{"kind": "reloads", "reloads": steps, "upto": si} })
 			}
 			check(si, "right after the reload")
+			if st.Soon && si+1 < len(steps) {
+				r.Class("next reload within 30 s")
+				clk.Advance(10 * time.Second)
+				continue
+			}
 			drain()
 			check(si, "after the deferred un-registration (30 s later)")
 		}
@@ -404,6 +421,11 @@ func TestProxyMapOverPolicyReloads(t *testing.T) {
 				r.NonTrivial(ev.JSON([]any{"policy reloads", steps, si}), func() any { return map[string]any{"kind": "policy reloads", "reloads": steps, "upto": si} })
 			}
 			check("right after the reload")
+			if si+1 < len(steps) && rapid.IntRange(0, 2).Draw(t, "next-reload-within-30s") == 0 {
+				r.Class("next reload within 30 s")
+				clk.Advance(10 * time.Second)
+				continue
+			}
 			drain()
 			check("after the deferred un-registration (30 s later)")
 		}
